@@ -204,7 +204,12 @@ fn check(c: &Case, ctx: &Ctx) -> Outcome {
                 let (a, b) = (g[..half + k].to_vec(), model::revcomp(&g[half..]));
                 cli::write_fastq(&dir.join(format!("smp{i}_1.fastq")), &[(a.clone(), vec![b'I'; a.len()])]);
                 cli::write_fastq(&dir.join(format!("smp{i}_2.fastq")), &[(b.clone(), vec![b'I'; b.len()])]);
-                fq += &format!("{name}\tsmp{i}_1.fastq\tsmp{i}_2.fastq\n");
+                // a list may mix assemblies (two columns) and read pairs (three columns)
+                if (c.rc_mask as usize + samples.len()) % 2 == 0 && i % 3 != 1 {
+                    fq += &format!("{name}\tsmp{i}.fa\n");
+                } else {
+                    fq += &format!("{name}\tsmp{i}_1.fastq\tsmp{i}_2.fastq\n");
+                }
             }
             std::fs::write(dir.join("fq_list.txt"), fq).unwrap();
         }
